@@ -240,6 +240,14 @@ let container_case (c : case) (out : out_channel) =
          | CComp (algo, _, _, _, _, len), _ -> Printf.sprintf "COMP:%s:%s" (string_of_n algo) (string_of_n len)
          | _, _ -> "?") in
     print_indexes id (Some cf) idxs out in
+  if List.exists (fun l -> l = ["canon"]) c.lines then begin
+    (* C14: every structure block re-serialises to the bytes it was parsed from *)
+    let pr name f = match canon_file f with
+      | Err e -> Printf.fprintf out "%s canon %s OPEN_%s\n" c.id name (show_res_err e)
+      | Ok rs -> List.iter (fun ((code, pos), okb) ->
+          Printf.fprintf out "%s canon %s %s %s %s\n" c.id name (string_of_n code) (string_of_n pos) (if okb then "ok" else "DIFF")) rs in
+    List.iter (fun (_, path) -> pr (Filename.basename path) (nbytes (read_file path))) !files
+  end;
   match container_open !main !fs with
   | Err e ->
     Printf.fprintf out "%s open %s\n" c.id (show_res_err e);
